@@ -50,7 +50,7 @@ type vfC19Set struct {
 	edges []int
 }
 
-func (s *vfC19Set) clear() { s.w = [1024]uint64{}; s.edges = s.edges[:0] }
+func (s *vfC19Set) clear()         { s.w = [1024]uint64{}; s.edges = s.edges[:0] }
 func (s *vfC19Set) has(p int) bool { return s.w[p>>6]>>(uint(p)&63)&1 == 1 }
 func (s *vfC19Set) fill(lo, hi int) {
 	s.edges = append(s.edges, lo, hi)
